@@ -137,6 +137,52 @@ def swap_shell(ck, prog, kinds, oi, ai):
     ck.require(nok >= 1, tag + ': no Ok path through the swap shell')
 
 
+def compute_d3_ref(amp, a, b, c):
+    """the integer algorithm of StableSwap::compute_d (three assets), re-stated; used only to evaluate a counterexample on real outputs."""
+    sx = a + b + c
+    if sx == 0: return 0
+    d = sx; ann = amp * 3
+    for _ in range(256):
+        dp = d
+        for x in (a, b, c): dp = dp * d // (x * 3)
+        prev = d
+        d = d * (dp * 3 + sx * ann) // (d * (ann - 1) + dp * 4)
+        if abs(d - prev) <= 1: break
+    return d
+
+
+def trio_mint_differs(reals, scs, kinds):
+    """on the REAL contract's answer: the LP minted is not floor(S*(D1-D0)/D0) over the reserves net of PENDING fees and of the credited deposit."""
+    import base64, json as _json
+    real = reals[0]['result']; sc = scs[0]
+    if real.get('outcome') != 'ok': return False
+    st = {bytes.fromhex(k).decode('latin1'): v for k, v in sc['storage']}
+    cfg = st['config']
+    if cfg['initial_amp'] != cfg['future_amp']: return False          # candidates use a settled ramp
+    amp = cfg['future_amp']; f = [int(a['amount']) for a in st['collected_protocol_fees']]
+    bal = []
+    for i, k in enumerate(kinds):
+        if k == 'native': bal.append([int(x[2]) for x in sc['bank'] if x[0] == TRIO and x[1] == TNAMES['native'][i]][0])
+        else: bal.append([int(r['balance']) for t, q, r in sc['smart'] if t == TNAMES['cw20'][i] and 'balance' in q][0])
+    S = [int(r['total_supply']) for t, q, r in sc['smart'] if t == TLP and 'token_info' in q][0]
+    dep = {}
+    for a in sc['msg']['provide_liquidity']['assets']:
+        nm = a['info'].get('native_token', {}).get('denom') or a['info']['token']['contract_addr']
+        dep[nm] = int(a['amount'])
+    d = [dep[tname(kinds, i)] for i in range(3)]
+    R = [bal[i] - f[i] - (d[i] if kinds[i] == 'native' else 0) for i in range(3)]
+    mint = None
+    for m in real['response']['messages']:
+        ex = m['msg'].get('wasm', {}).get('execute')
+        if not ex: continue
+        inner = ex['msg']
+        if isinstance(inner, str): inner = _json.loads(base64.b64decode(inner))
+        if 'mint' in inner and inner['mint']['recipient'] == 'recv': mint = int(inner['mint']['amount'])
+    if mint is None or min(R) <= 0: return False
+    D0 = compute_d3_ref(amp, *R); D1 = compute_d3_ref(amp, *[R[i] + d[i] for i in range(3)])
+    return D0 > 0 and mint != S * (D1 - D0) // D0
+
+
 def mint_shell(ck, prog, kinds):
     tag = ''.join(k[0] for k in kinds)
     for first in (True, False):
@@ -168,8 +214,12 @@ def mint_shell(ck, prog, kinds):
                 if shape:
                     D0 = D3(*inv5, R[0], R[1], R[2]); D1 = D3(*inv5, R[0] + d[0], R[1] + d[1], R[2] + d[2])
                     m = mints[0].amount
-                    ck.oblige('C04.mint.next.' + tag, p, z3.Or(m * D0 > S * (D1 - D0), D1 <= D0), 'mint <= S*(D1-D0)/D0 with D over reserves net of pending fees and of the credited deposit; nothing minted unless D grows')
-                    ck.oblige('C04.mint.next.lp_value.' + tag, p, D1 * S < D0 * (S + m), 'D (as the pool computes it) per LP token does not fall on deposit')
+                    nice = [z3.Int('b%d' % i) == 10 ** 12 + (10 ** 11 if kinds[i] == 'native' else 0) for i in range(3)] + [z3.Int('f%d' % i) == 10 ** 9 for i in range(3)] + \
+                           [z3.Int('d%d' % i) == 10 ** 11 for i in range(3)] + [z3.Int('at%d' % i) == 5 * 10 ** 10 for i in range(3)] + \
+                           [z3.Int('S') == 3 * 10 ** 12, z3.Int('initial_amp') == 100, z3.Int('future_amp') == 100, z3.Int('initial_amp_block') == 1, z3.Int('future_amp_block') == 2, z3.Int('height') == 12345]
+                    kw = dict(native_pred=lambda reals, scs, kinds=kinds: trio_mint_differs(reals, scs, kinds), nice=nice)
+                    ck.oblige('C04.mint.next.' + tag, p, z3.Or(m * D0 > S * (D1 - D0), D1 <= D0), 'mint <= S*(D1-D0)/D0 with D over reserves net of pending fees and of the credited deposit; nothing minted unless D grows', **kw)
+                    ck.oblige('C04.mint.next.lp_value.' + tag, p, D1 * S < D0 * (S + m), 'D (as the pool computes it) per LP token does not fall on deposit', **kw)
         ck.require(n >= 1, 'provide %s first=%s: no Ok path' % (tag, first))
 
 
@@ -191,6 +241,22 @@ def withdraw_shell(ck, prog, kinds):
     ck.require(n >= 1, 'withdraw %s: no Ok path' % tag)
 
 
+def collect_shell(ck, prog, kinds):
+    tag = ''.join(k[0] for k in kinds)
+    n = 0
+    for p in ck.explore(prog, tcollect_body(kinds), 'collect.' + tag):
+        if not p.ok: continue
+        n += 1
+        st = p.extra['st']; b, f = st['b'], st['f']
+        eff = effects(resp_of(p), TRIO); nf = tledger_after(p, 'collected_protocol_fees')
+        for i in range(3):
+            sent = total(eff, 'send', tname(kinds, i))
+            ck.oblige('C04.collect.reserves.%s.a%d' % (tag, i), p, z3.Or((b[i] - sent) - nf[i] != b[i] - f[i], sent > f[i]),
+                      'collecting fees leaves the reported reserve (balance - owed fees) unchanged: what is sent is exactly what leaves the ledger, never more than owed')
+        ck.oblige('C04.collect.only_sends.' + tag, p, any(e.kind != 'send' or not same(e.dst, 'collector') for e in eff), 'collection only transfers to the fee collector')
+    ck.require(n >= 1, 'collect %s: no Ok path' % tag)
+
+
 def main():
     global MIN_RAMP
     ck = Check('C04')
@@ -204,7 +270,7 @@ def main():
     for oi, ai in dirs: swap_shell(ck, prog, kinds, oi, ai)
     if ck.tier == 'thorough':
         for oi, ai in dirs: swap_shell(ck, prog, ('cw20', 'native', 'native'), oi, ai)
-    mint_shell(ck, prog, kinds); withdraw_shell(ck, prog, kinds)
+    mint_shell(ck, prog, kinds); withdraw_shell(ck, prog, kinds); collect_shell(ck, prog, kinds)
     ck.bounds.update(kernel='compute_d and compute_y_raw are uninterpreted functions of their inputs (equal inputs give equal outputs); every claim about D is "D as the pool computes it"',
                      directions='all six ordered asset pairs, asset kinds (native, native, cw20)', widths='reserves and amounts full u128, amps/heights full u64')
     ck.stubs |= {'StableSwap::compute_d -> uninterpreted D3(amp params, a, b, c)', 'StableSwap::compute_y_raw -> uninterpreted Y3(...)'}
